@@ -695,7 +695,7 @@ theorem recycleStep_envsOf (s s' : KState) (sk creator : Key) (d : StepDecl) (n 
       have e1 := reattach_envsOf s s1 sk creator h1 q
       have e3 : s3.envsOf q = s1.envsOf q := by
         unfold KState.afterRecycle at h3
-        have hm : (s1.modify sk fun n => { n with need := d.need, shell := d.shell, holding := 0 }).envsOf q = s1.envsOf q :=
+        have hm : (s1.modify sk fun n => { n with need := d.need, shell := d.shell }).envsOf q = s1.envsOf q :=
           envsOf_of_frame _ _ (envFrame_modify s1 sk _ (by intro n; rfl)) q
         split at h3
         · rw [markStepPending_def] at h3
